@@ -138,7 +138,11 @@ func canonDef(d *model.Def) string {
 				vs = append(vs, fmt.Sprintf("%s=%d", v.Symbol, v.Value))
 			}
 		}
-		return "enum(" + d.Base + "){" + strings.Join(vs, ",") + "}"
+		base := d.Base
+		if d.BaseRef != nil && base != "" {
+			base = canonType(d.BaseRef) // the schema names the alias; the alias is part of the closure
+		}
+		return "enum(" + base + "){" + strings.Join(vs, ",") + "}"
 	case model.DAlias:
 		return "alias" + tp + "=" + canonType(d.Type)
 	}
@@ -167,6 +171,9 @@ func ExpectedSchema(env *model.Env, proto *model.Def) *SchemaContent {
 			}
 			s.addType(d.Name, canonDef(d))
 			model.DefTypes(d, visitT)
+			if d.BaseRef != nil && d.Base != "" {
+				visitT(d.BaseRef)
+			}
 		})
 	}
 	for _, st := range proto.Fields {
